@@ -4,7 +4,8 @@
    and tied to the stylesheet by the xslstr correspondence stage. *)
 Require Import BB.Base.Str BB.Base.Xml BB.Model.PegSyntax BB.Model.Unparse.
 Require Import BB.Gen.Grammar BB.Gen.TablesXsl.
-Require Import BB.Model.Types BB.Proofs.Tables BB.Proofs.EscapeLossless.
+Require Import BB.Base.Dict BB.Model.Peg BB.Model.Types BB.Proofs.Tables BB.Proofs.EscapeLossless.
+Require Import BB.Proofs.Totality BB.Proofs.PegPlain BB.Proofs.EscapedTextParses.
 
 (* the hand-maintained keyword list of escape-prefixes covers every keyword literal of the grammar,
    except the committed gaps *)
@@ -38,6 +39,29 @@ Print Assumptions C06_escape_inlines_lossless.
 Theorem C06_escape_inlines_no_live_marker : forall s, has_live (escape_inlines s) = false.
 Proof. exact escape_inlines_no_live_marker. Qed.
 Print Assumptions C06_escape_inlines_no_live_marker.
+
+(* the chain, for every non-empty string s of scalar values, anywhere on a line of any input: the
+   grammar regenerated from akn.peg reads escape-inlines(s) up to the line end as a run of inlines,
+   and the dict stage turns that run into text nodes only - no inline element - whose values spell s
+   again (line breaks as spaces).  Escaped text cannot become inline markup. *)
+Theorem C06_escaped_text_parses_as_text : forall s pre rest f f',
+  Forall scalar s -> s <> [] ->
+  let e := escape_inlines s in
+  let inp := pre ++ e ++ NL :: rest in
+  exists ns ds,
+    run akn_peg (13 + f) (Plus (Ref (of_string "inline"))) (e ++ NL :: rest) (len_N pre)
+      = Ok (NL :: rest) (len_N pre + len_N e) (Node (len_N pre) (len_N e) [] [] ns)
+    /\ inline_many inp (to_dict inp (S f')) ns = OkR ds
+    /\ Forall is_dtext ds
+    /\ concat (map dval ds) = nl_to_space s.
+Proof. exact escaped_text_parses_as_text. Qed.
+Print Assumptions C06_escaped_text_parses_as_text.
+
+Example C06_example_chain : Forall scalar (of_string "a **b** {{^c}} \\ PART //") /\ of_string "a **b** {{^c}} \\ PART //" <> [].
+Proof.
+  split; [|discriminate].
+  repeat (apply Forall_cons; [left; apply N.leb_le; vm_compute; reflexivity|]). apply Forall_nil.
+Qed.
 
 Example C06_example_live : has_live (of_string "a **b** c") = true /\ has_live (of_string "a \**b") = false.
 Proof. split; vm_compute; reflexivity. Qed.
